@@ -28,6 +28,12 @@ CONSTANTS Kind,        \* "t" | "a" | "m" | "x"
                        \* Kind "x": one element (created by the first edit), afterwards only its attribute "id" is set / removed
           ,Pre         \* Kind "x" only: the fragment already holds content of ANOTHER origin when the manager starts (the pipeline
                        \* prepends the edits creating it): <e id=..>[text node], text node with two characters
+          ,Shape       \* "any" | "wiggle".  wiggle: the tracked root starts with prepared content (C0 below; the pipeline prepends
+                       \* the edits creating it), the program is  edit (tick edit)^(MaxE-1) ; U^p (R U)^j U U R R  with
+                       \* p \in 1..MaxP, j \in 1..MaxW: every edit is its own capture step, then an outer step is undone / redone /
+                       \* undone ... (whatever it re-creates is re-created j+1 times) BEFORE older steps are undone; foreign
+                       \* edits (MaxF) may be interleaved anywhere.  MaxUR is not used.
+          ,MaxP, MaxW
 
 VARIABLES C,      \* abstract content of the tracked root
           M,      \* abstract manager (Undo.tla), views = contents
@@ -39,9 +45,10 @@ VARIABLES C,      \* abstract content of the tracked root
           slots,  \* update slots used so far
           clean,  \* no foreign edit so far
           prev,   \* content before the last successful undo while nothing else happened since (design check)
+          wq,     \* Shape "wiggle": the undo (TRUE) / redo (FALSE) calls still to be made, chosen initially
           hist
-vars == <<C, M, tok, now, nE, nUR, nF, nEmpty, nStop, lastK, pend, slots, clean, prev, hist>>
-view == <<C, M, tok, now, nE, nUR, nF, nEmpty, nStop, lastK, pend, slots, clean, prev>>
+vars == <<C, M, tok, now, nE, nUR, nF, nEmpty, nStop, lastK, pend, slots, clean, prev, wq, hist>>
+view == <<C, M, tok, now, nE, nUR, nF, nEmpty, nStop, lastK, pend, slots, clean, prev, wq>>
 
 Min(a, b) == IF a < b THEN a ELSE b
 InsAt(s, i, x) == SubSeq(s, 1, i) \o x \o SubSeq(s, i + 1, Len(s))
@@ -50,7 +57,11 @@ RemAt(s, i) == SubSeq(s, 1, i - 1) \o SubSeq(s, i + 1, Len(s))      \* 1-based
 (* uniform value records (TLC cannot compare values of different shapes) *)
 Val(k, id, e, mm) == [k |-> k, id |-> id, e |-> e, mm |-> mm]
 NoVal == Val("-", 0, <<>>, <<0, 0>>)
-C0 == IF Kind = "m" THEN <<NoVal, NoVal>>
+C0 == IF Shape = "wiggle" /\ Kind = "t" THEN <<901, 902, 903>>
+      ELSE IF Shape = "wiggle" /\ Kind = "a"
+           THEN << Val("u", 901, <<>>, <<0, 0>>), Val("M", 902, <<>>, <<903, 0>>), Val("u", 904, <<>>, <<0, 0>>) >>
+      ELSE IF Shape = "wiggle" /\ Kind = "m" THEN << Val("A", 901, <<902, 903>>, <<0, 0>>), Val("u", 904, <<>>, <<0, 0>>) >>
+      ELSE IF Kind = "m" THEN <<NoVal, NoVal>>
       ELSE IF Kind = "x" /\ Pre
            THEN << Val("E", 901, << <<903, 1>> >>, <<902, 0>>), Val("T", 904, << <<905, 0>>, <<906, 0>> >>, <<0, 0>>) >>
            ELSE <<>>
@@ -217,35 +228,44 @@ Step(o, r, origin) == [a |-> "uop", op |-> o.op, r |-> r, p |-> o.p, i |-> o.i, 
 Adjust(st, o, t) == [i \in 1..Len(st) |-> Entry(Apply(st[i].v, o, t), FALSE)]
 ForeignAdj(MM, o, t) == [ust |-> Adjust(MM.ust, o, t), rst |-> Adjust(MM.rst, o, t), last |-> MM.last]
 
-Done == nE = MaxE /\ nUR = MaxUR /\ pend = <<>> /\ lastK # "T"
+RECURSIVE Rep(_, _)
+Rep(k, s) == IF k = 0 THEN <<>> ELSE s \o Rep(k - 1, s)
+Word(p, j) == Rep(p, <<TRUE>>) \o Rep(j, <<FALSE, TRUE>>) \o <<TRUE, TRUE, FALSE, FALSE>>
+Wiggle == Shape = "wiggle"
+
+Done == IF Wiggle THEN nE = MaxE /\ wq = <<>> /\ pend = <<>>
+        ELSE nE = MaxE /\ nUR = MaxUR /\ pend = <<>> /\ lastK # "T"
 
 Tracked(o) ==
   /\ nE < MaxE
+  /\ Wiggle => (nUR = 0 /\ lastK # "E")
   /\ C' = Apply(C, o, tok) /\ tok' = tok + 2
   /\ M' = Capture(M, C, PredictExtend(M, now, 500), now)
   /\ nE' = nE + 1 /\ slots' = slots + 1 /\ lastK' = "E" /\ prev' = <<>>
   /\ hist' = Append(hist, Step(o, 1, "U"))
-  /\ UNCHANGED <<now, nUR, nF, nEmpty, nStop, pend, clean>>
+  /\ UNCHANGED <<now, nUR, nF, nEmpty, nStop, pend, clean, wq>>
 
 Tick ==
   /\ lastK = "E" /\ nE < MaxE
   /\ now' = now + 600 /\ lastK' = "T"
   /\ hist' = Append(hist, [a |-> "tick", ms |-> 600])
-  /\ UNCHANGED <<C, M, tok, nE, nUR, nF, nEmpty, nStop, pend, slots, clean, prev>>
+  /\ UNCHANGED <<C, M, tok, nE, nUR, nF, nEmpty, nStop, pend, slots, clean, prev, wq>>
 
 UStop ==
   /\ UseStop /\ nStop = 0 /\ lastK = "E" /\ nE < MaxE
   /\ M' = Stop(M) /\ lastK' = "T" /\ nStop' = 1
   /\ hist' = Append(hist, [a |-> "ustop", r |-> 1])
-  /\ UNCHANGED <<C, tok, now, nE, nUR, nF, nEmpty, pend, slots, clean, prev>>
+  /\ UNCHANGED <<C, tok, now, nE, nUR, nF, nEmpty, pend, slots, clean, prev, wq>>
 
 Pop(undo) ==
   LET st  == IF undo THEN M.ust ELSE M.rst
       det == Determined(st, C)
       ret == IF det THEN ExpectRet(st, C) ELSE Len(st) > 0
       C2  == IF det THEN ExpectView(st, C) ELSE IF Len(st) > 0 THEN st[Len(st)].v ELSE C
-  IN /\ nUR < MaxUR /\ lastK # "T"
-     /\ (Len(st) > 0 \/ nEmpty = 0)
+  IN /\ lastK # "T"
+     /\ IF Wiggle THEN nE = MaxE /\ wq # <<>> /\ Head(wq) = undo
+                  ELSE nUR < MaxUR /\ (Len(st) > 0 \/ nEmpty = 0)
+     /\ wq' = IF Wiggle THEN Tail(wq) ELSE wq
      /\ nEmpty' = IF Len(st) = 0 THEN 1 ELSE nEmpty
      /\ C' = C2
      /\ M' = PopApply(M, undo, C, ret, Len(st) - 1)
@@ -260,7 +280,7 @@ ForeignLocal(o) ==
   /\ M' = ForeignAdj(M, o, tok)
   /\ nF' = nF + 1 /\ slots' = slots + 1 /\ lastK' = "O" /\ clean' = FALSE /\ prev' = <<>>
   /\ hist' = Append(hist, Step(o, 1, IF nF = 0 THEN "X" ELSE ""))
-  /\ UNCHANGED <<now, nE, nUR, nEmpty, nStop, pend>>
+  /\ UNCHANGED <<now, nE, nUR, nEmpty, nStop, pend, wq>>
 
 (* replica 2 edits (after catching up with replica 1, or concurrently without); delivered to 1 later *)
 RemoteEdit(o, synced) ==
@@ -268,7 +288,7 @@ RemoteEdit(o, synced) ==
   /\ pend' = <<o, slots + 1>> /\ nF' = nF + 1 /\ slots' = slots + 1 /\ lastK' = "O"
   /\ hist' = (IF synced THEN Append(hist, [a |-> "sync", f |-> 1, t |-> 2, how |-> "state", sv |-> "own"]) ELSE hist)
              \o << Step(o, 2, "") >>
-  /\ UNCHANGED <<C, M, tok, now, nE, nUR, nEmpty, nStop, clean, prev>>
+  /\ UNCHANGED <<C, M, tok, now, nE, nUR, nEmpty, nStop, clean, prev, wq>>
 
 RemoteDeliver ==
   /\ pend # <<>> /\ lastK # "T"
@@ -276,7 +296,7 @@ RemoteDeliver ==
   /\ M' = ForeignAdj(M, pend[1], tok)
   /\ pend' = <<>> /\ lastK' = "O" /\ clean' = FALSE /\ prev' = <<>>
   /\ hist' = Append(hist, [a |-> "dlv", r |-> 1, u |-> <<pend[2]>>, enc |-> "v1", shape |-> "flat", diff |-> FALSE])
-  /\ UNCHANGED <<now, nE, nUR, nF, nEmpty, nStop, slots>>
+  /\ UNCHANGED <<now, nE, nUR, nF, nEmpty, nStop, slots, wq>>
 
 Next ==
   /\ ~Done
@@ -292,6 +312,7 @@ Init ==
   /\ C = C0 /\ M = EmptyMgr /\ tok = 1 /\ now = 1000
   /\ nE = 0 /\ nUR = 0 /\ nF = 0 /\ nEmpty = 0 /\ nStop = 0 /\ lastK = "" /\ pend = <<>> /\ slots = 0
   /\ clean = TRUE /\ prev = <<>> /\ hist = <<>>
+  /\ wq \in (IF Wiggle THEN {Word(p, j) : p \in 1..MaxP, j \in 1..MaxW} ELSE {<<>>})
 
 Spec == Init /\ [][Next]_vars
 
@@ -312,4 +333,7 @@ InvNearest == clean /\ ExpectRet(M.ust, C) =>
                  /\ \A i \in (Target(M.ust, C) + 1)..Len(M.ust) : M.ust[i].v = C
 (* stacks never hold more entries than steps were captured / calls made *)
 InvBounded == Len(M.ust) <= nE + nUR /\ Len(M.rst) <= nUR
+(* wiggle: redoing what was just undone and undoing it again returns to the same content (checked through InvRoundTrip at *)
+(* every R of the word); the word is consumed completely                                                              *)
+InvWord == Wiggle => Len(wq) <= MaxP + 2 * MaxW + 4
 =============================================================================
